@@ -101,6 +101,27 @@ def judge_file(data, st, case, quick_blocks=None):
                              dict(case, header=j, pad=k))
                 break
 
+    # 1b. empty lines before each header, through two full blocks
+    for j, rec in enumerate(exp):
+        if j == 0:
+            continue
+
+        hstart = rec['span'][0]
+        header = data[hstart:rec['span'][1]]
+        nl = b'\r\n' if header.endswith(b'\r\n') else b'\n'
+
+        for k in range(1, MAXPAD + 1):
+            blob = data[:hstart] + nl * k + data[hstart:]
+            recs, e = sut.read_records(blob)
+            runs += 1
+
+            if e is not None or not same(recs, base):
+                st.violation('records-depend-on-blank-lines',
+                             '%d empty lines before header %d (%s): %r'
+                             % (k, j, rec['section'], e),
+                             dict(case, header=j, blank=k))
+                break
+
     # 2. every block size
     old = sut.get_chunk_size()
 
@@ -158,7 +179,7 @@ def run_case(case, st):
     else:
         data = case['data']
 
-    if 'header' in case or 'block' in case:
+    if 'header' in case or 'block' in case or 'blank' in case:
         # replay of one coordinate
         return replay_point(data, case, st)
 
@@ -182,7 +203,13 @@ def replay_point(data, case, st):
         d = data
         want = norm(base)
 
-        if 'header' in case:
+        if 'blank' in case:
+            j = case['header']
+            hstart = exp[j]['span'][0]
+            header = data[hstart:exp[j]['span'][1]]
+            nl = b'\r\n' if header.endswith(b'\r\n') else b'\n'
+            d = data[:hstart] + nl * case['blank'] + data[hstart:]
+        elif 'header' in case:
             j, k = case['header'], max(1, case['pad'])
             d = pad_header(data, exp[j]['span'], k)
             want[j] = dict(want[j])
@@ -223,12 +250,13 @@ def checks():
     return [
         HypCheck(
             'generated-files', cases, run_case,
-            budget={'quick': (16, 8), 'thorough': (16, 80)},
+            budget={'quick': (16, 5), 'thorough': (16, 80)},
             rule='per generated file (foreign generator or writer program; '
                  'long content lines included): every header padded by '
                  '1..200 bytes via an unknown option (walking its newline '
                  'and the content start through every position of the '
-                 'read-ahead block), every block size 1..192, 255, 256, '
+                 'read-ahead block), 1..200 empty lines inserted before '
+                 'every header, every block size 1..192, 255, 256, '
                  '4096, 10^6, and a diagonal of padding x block size; '
                  'records must equal the unpadded/default-block records '
                  '(+ the pad option) and the reference reading; every file '
